@@ -4,3 +4,5 @@ import PG.Props.C17
 #print axioms PG.C17_throwable
 #print axioms PG.C17_trace
 #print axioms PG.C17_reprint
+#print axioms PG.stripWs_encode
+#print axioms PG.trim_encodeAll
